@@ -15,25 +15,26 @@ import (
 
 // TreeEntry describes one entry to materialise. Paths are relative, '/'-separated.
 type TreeEntry struct {
-	Path     string
-	Type     string // dir file symlink fifo chr blk hardlink sock
-	Mode     uint32 // unix permission bits incl. 04000/02000/01000
-	UID      int
-	GID      int
-	Mtime    int64 // ns
-	Data     []byte
-	Hole     int
-	OpenErr  bool
-	DirSize  int
-	MtSec    int64 // with HasMtSec: a time stamp outside the range of int64 nanoseconds (before 1677 / after 2262), as seconds + MtNsec
-	MtNsec   int64
-	HasMtSec bool
-	ASize    int // announced size of a regular file when HasASize (in-memory sources): the FS reports it, the readers deliver Data
-	HasASize bool
-	Link     string // symlink target, or hard-link source path (relative to the tree root)
-	Maj      uint32
-	Min      uint32
-	Xattr    [][2]string
+	Path      string
+	Type      string // dir file symlink fifo chr blk hardlink sock
+	Mode      uint32 // unix permission bits incl. 04000/02000/01000
+	UID       int
+	GID       int
+	Mtime     int64 // ns
+	Data      []byte
+	Hole      int
+	OpenErr   bool
+	DirSize   int
+	MtSec     int64 // with HasMtSec: a time stamp outside the range of int64 nanoseconds (before 1677 / after 2262), as seconds + MtNsec
+	MtNsec    int64
+	HasMtSec  bool
+	LinkMtime int64 // (in-memory sources) a hard-link entry announced with a time stamp of its own
+	ASize     int   // announced size of a regular file when HasASize (in-memory sources): the FS reports it, the readers deliver Data
+	HasASize  bool
+	Link      string // symlink target, or hard-link source path (relative to the tree root)
+	Maj       uint32
+	Min       uint32
+	Xattr     [][2]string
 }
 
 func treeFromJSON(xs []interface{}) []TreeEntry {
@@ -62,6 +63,9 @@ func treeFromJSON(xs []interface{}) []TreeEntry {
 					e.MtSec, e.MtNsec, e.HasMtSec, e.Mtime = sec.Int64(), nsec.Int64(), true, 0
 				}
 			}
+		}
+		if e.Type == "hardlink" {
+			e.LinkMtime = num64(m["lmt"])
 		}
 		if _, ok := m["asize"]; ok {
 			e.ASize, e.HasASize = m.num("asize"), true
